@@ -48,22 +48,7 @@ CONTRACTS = [
 class CMExecutor(Executor2):
     lenient = True
 
-    def assign_subscript(self, st, target, v, ln):
-        # x[i] = v on a length-only list: bounds obligation, length unchanged
-        base = self.ev(target.value, st)
-        if base.kind == "lenlist":
-            idx = self.ev(target.slice, st)
-            if idx.kind == "int":
-                self.oblige(st, z3.And(idx.t < base.t, idx.t >= -base.t), "no-IndexError[store]", ln, kind="safety")
-            return
-        return Executor2.assign_subscript(self, st, target, v, ln)
-
-    def assign(self, st, target, v, ln):
-        if isinstance(target, ast.Subscript):
-            base = self.ev(target.value, st)
-            if base.kind == "lenlist":
-                return self.assign_subscript(st, target, v, ln)
-        return Executor2.assign(self, st, target, v, ln)
+    pass
 
 
 import z3  # noqa: E402
